@@ -119,7 +119,36 @@ def r10_2(ctx):
             # each step of the range is followed by exactly one ',' dispatch before the next step
             comma_sw = [b for b, t in f.terms() if t["k"] == "switch" and t.get("dty") == "u8" and any(int(v) == 44 for v, _ in t["targets"])]
             okr = okr and len(nx) == 1 and len(comma_sw) >= 1 and all(f.dominates(nx[0][0], c) for c in comma_sw)
-            ctx.ob("R10.2", f"{k}:one-countdown-store", okr, f.loc(), "the elements are counted by a range iterator over 0..index, one ',' dispatch per step" if okr else "no countdown of the index parameter found")
+            how = "the elements are counted by a range iterator over 0..index, one ',' dispatch per step"
+            if not okr:
+                # counting up: a counter that starts at 0, is incremented by one only on the ',' edge, and is compared
+                # with the index parameter to decide between walking on and returning
+                for L in range(len(f.locals)):
+                    ds = f.defs.get(L, [])
+                    inits = [d for d in ds if d[0] == "stmt" and d[3]["rv"]["k"] == "use" and op_int(d[3]["rv"]["op"]) == 0]
+                    incs = []
+                    for d in ds:
+                        if d[0] == "stmt" and d not in inits:
+                            found, leaves = _store_arith(f, d[3], "Add")
+                            if found and any(lf[0] == "const" and op_int(lf[1]) == 1 for lf in leaves):
+                                incs.append(d)
+                    if len(inits) != 1 or len(incs) != 1 or len(ds) != 2:
+                        continue
+                    ib = incs[0][1]
+                    on_comma = any(f.dominates(x, ib) and not any(f.dominates(y, ib) for vv, y in t["targets"] if int(vv) != 44)
+                                   for bb, t in f.terms() if t["k"] == "switch" and t.get("dty") == "u8" for v, x in t["targets"] if int(v) == 44)
+                    cmp_idx = False
+                    for bb, ii, ss in f.assigns():
+                        rv = ss["rv"]
+                        if rv["k"] == "binop" and rv["op"] in ("Lt", "Le", "Gt", "Ge", "Eq", "Ne"):
+                            la, lb = op_local(rv["a"]), op_local(rv["b"])
+                            srcs = [f.src(x) if x is not None else None for x in (la, lb)]
+                            derived = lambda x: x is not None and (x == L or (f.single_def(x) and f.single_def(x)[0] == "stmt" and f.single_def(x)[3]["rv"]["k"] == "use" and op_local(f.single_def(x)[3]["rv"]["op"]) == L))
+                            if ("param", 2) in srcs and (derived(la) or derived(lb)):
+                                cmp_idx = True
+                    if on_comma and cmp_idx:
+                        okr, how = True, "the elements are counted up from 0, by one on the ',' edge only, until the counter reaches the index parameter"
+            ctx.ob("R10.2", f"{k}:one-countdown-store", okr, f.loc(), how if okr else "no countdown of the index parameter found")
             continue
         ctx.ob("R10.2", f"{k}:one-countdown-store", ok, f.loc(), f"one countdown variable initialised from the index parameter, decremented at {len(stores)} site(s)")
         if not ok:
